@@ -155,7 +155,9 @@ STAGES.update({
     },
     'C02': {
         'quick': [
-            ('header-setters', 'MimeBuild', cfg(MAXP='1', MAXE='0', MAXA='0', ENCS='{"qp", "b64"}', CCS='<<"crlf">>', HDRS=hdrsets(SETTERS, INJ))),
+            ('header-setters', 'MimeBuild', cfg(MAXP='1', MAXE='0', MAXA='0', ENCS='{"qp", "b64", "8bit", "7bit"}', CCS='<<"crlf">>', HDRS=hdrsets(SETTERS, INJ))),
+            # two files in a list, the first with a description / content-id of its own: nothing of it shows up in the second
+            ('two-files-one-description', 'MimeBuild', cfg(MAXP='1', MAXE='2', MAXA='2', ENCS='{"qp"}', CCS='<<"crlf">>', FDESCS='{"plain", "utf8"}', FCIDS='{"", "plain"}', ROTS='{0, 1}')),
             ('fixed-value-setters', 'MimeBuild', cfg(MAXP='1', MAXE='0', MAXA='1', ENCS='{"qp"}', CCS='<<"crlf">>', STYLES='{"", "set"}',
                                                      HDRS=hdrsets(FIXEDSETTERS, ["plain", "utf8", "long", "blanks", "tabs"]))),
             ('part-and-file-options', 'MimeBuild', cfg(MAXP='2', MAXE='1', MAXA='1', ENCS='{"qp", "b64"}', CCS='<<"crlf">>', PDESCS=DESCCLS)),
